@@ -249,7 +249,10 @@ def main():
     if violations:
         f = violations[0]
         try:
-            if not (f['case'] or {}).get('cmp'):
+            # oracles that compare two objects built by the same calls are not shrunk: dropping one of a pair of
+            # calls would make them fail for a reason that has nothing to do with the implementation
+            paired = f.get('oracle') and f['oracle'][0][1].split()[0] in ('!sameobs', '!samefam', '!additive')
+            if not (f['case'] or {}).get('cmp') and not paired:
                 orc = (f['oracle'][0][1].split()[0], f['oracle'][0][2].split()[:3]) if f.get('oracle') else None
                 f = dict(f, case=runner.shrink(f['case'], 'impl-violation', oracle=orc))
                 ff, _, _, _, _ = runner.process_chunk([f['case']])
